@@ -29,6 +29,8 @@ import (
 	"time"
 
 	"github.com/tsenart/vegeta/v12/internal/resolver"
+	"golang.org/x/net/http2"
+	"golang.org/x/net/http2/h2c"
 	vegeta "github.com/tsenart/vegeta/v12/lib"
 )
 
@@ -436,7 +438,7 @@ type verifReq struct {
 }
 
 // verifE2E runs the real attack command (op.Args) against an in-process HTTP
-// server on the loopback interface (op.Server: "plain", "tls" or "unix") whose
+// server on the loopback interface (op.Server: "plain", "tls", "tls2" = TLS offering HTTP/2, "h2c" or "unix") whose
 // behaviour is selected by the request path, and reports what the server saw.
 // op.Docs are files written into op.Dir first. In arguments and files {{URL}},
 // {{ADDR}}, {{PORT}}, {{DIR}}, {{CERT}}, {{SOCK}} and {{PROM}} are replaced.
@@ -528,6 +530,12 @@ func verifE2E(op *verifOp, res *verifOut) {
 	switch op.Server {
 	case "tls":
 		srv.StartTLS()
+	case "tls2":
+		srv.EnableHTTP2 = true
+		srv.StartTLS()
+	case "h2c":
+		srv.Config.Handler = h2c.NewHandler(handler, &http2.Server{})
+		srv.Start()
 	case "unix":
 		l, err := net.Listen("unix", sock)
 		if err != nil {
